@@ -131,11 +131,26 @@ func RunSuite(name string, seed uint64, tier, repo, dir string) error {
 		}
 		st.Failures = append(st.Failures, s.fails...)
 		if len(s.cases) > 0 && len(st.Samples) < 4 {
-			c := s.cases[len(s.cases)/2]
-			if len(c) > 600 {
-				c = c[:600] + "…"
+			// a representative case: the median-length one of a window in the middle of the shard
+			lo := len(s.cases) / 2
+			hi := lo + 9
+			if hi > len(s.cases) {
+				hi = len(s.cases)
 			}
-			st.Samples = append(st.Samples, c)
+			win := append([]int(nil), make([]int, 0)...)
+			for i := lo; i < hi; i++ {
+				win = append(win, i)
+			}
+			sort.Slice(win, func(a, b int) bool { return len(s.cases[win[a]]) < len(s.cases[win[b]]) })
+			k := win[len(win)/2]
+			c, o := s.cases[k], s.obs[k]
+			if len(c) > 500 {
+				c = c[:500] + "…"
+			}
+			if len(o) > 300 {
+				o = o[:300] + "…"
+			}
+			st.Samples = append(st.Samples, c+"  ==>  "+o)
 		}
 	}
 	st.Distinct = len(sigs)
